@@ -179,18 +179,33 @@ theorem c14_roundtrip_partial (cfg : Cfg) (mtu : UInt16) (frames : List (List (N
       exact ⟨ps, hps, p, hp, hfu⟩
     rw [this] at hreg; simp at hreg
 
-/-- c14_shape, spelled out without the predicate: the fragments of one `Payload` call (any value
-    of the DONL counter) on a well-formed frame are exactly `descs.map encode` for a list of packet
-    descriptions that are well-formed for the stream's DONL mode, have the RFC 7798 shape, and
-    reassemble to the frame's units.  Hypothesis: no unit is fragmented while AddDONL is on. -/
+/-- c14_shape, spelled out without the predicate and WITHOUT excluding the known-finding region:
+    the fragments of one `Payload` call (any value of the DONL counter) on a well-formed frame are
+    exactly `descs.map encode` for a list of packet descriptions that are well-formed for the
+    stream's DONL mode and have the RFC 7798 shape (as `H265Packet` decodes them), and they
+    reassemble to the frame's units in order — on an AddDONL stream: once the two stray DONL octets
+    that the payloader writes into every non-first FU are skipped (`stripDonl`, the identity on every
+    other packet and on streams without DONL).  So the known finding is the *only* way in which the
+    payloader's output departs from RFC 7798 on the whole domain of C14. -/
 theorem c14_shape (cfg : Cfg) (mtu d : UInt16) (f : List (Nat × Bytes)) (hf : C14.frameWF f = true)
-    (hmin : (if cfg.addDONL then 6 else 4) ≤ mtu.toNat)
-    (hnofu : cfg.addDONL = true → ∀ p ∈ (payload cfg mtu d (some (C14.frameBytes f))).1, isFU p = false) :
+    (hmin : (if cfg.addDONL then 6 else 4) ≤ mtu.toNat) :
     ∃ descs : List Packet,
       (payload cfg mtu d (some (C14.frameBytes f))).1 = descs.map encode ∧
       (∀ p ∈ descs, p.WF cfg.addDONL = true ∧ shapeOk cfg.addDONL p = true) ∧
-      depack none descs = some (f.map (·.2)) :=
-  payload_emits cfg mtu d f hf hmin hnofu
+      depack none (descs.map (stripDonl cfg.addDONL)) = some (f.map (·.2)) :=
+  payload_emits cfg mtu d f hf hmin
+
+/-- the same for a stream without DONL, where nothing is stripped -/
+theorem c14_shape_nodonl (skip : Bool) (mtu d : UInt16) (f : List (Nat × Bytes)) (hf : C14.frameWF f = true)
+    (hmin : 4 ≤ mtu.toNat) :
+    ∃ descs : List Packet,
+      (payload ⟨false, skip⟩ mtu d (some (C14.frameBytes f))).1 = descs.map encode ∧
+      (∀ p ∈ descs, p.WF false = true ∧ shapeOk false p = true) ∧
+      depack none descs = some (f.map (·.2)) := by
+  obtain ⟨descs, h1, h2, h3⟩ := c14_shape ⟨false, skip⟩ mtu d f hf (by simpa using hmin)
+  refine ⟨descs, h1, h2, ?_⟩
+  have : stripDonl false = id := funext stripDonl_false
+  simpa [this] using h3
 
 /-- without AddDONL the statement holds everywhere -/
 theorem c14_roundtrip_nodonl (skip : Bool) (mtu : UInt16) (frames : List (List (Nat × Bytes)))
